@@ -138,6 +138,13 @@ def run_job(job):
             if props:
                 res['prop'] = [p for p in props if p in o.props][0]
             out['results'].append(res)
+        # vacuity guard: at least one explored path must be feasible, otherwise every obligation is trivially "valid"
+        sts = []
+        for o in obls:
+            if o.st not in sts:
+                sts.append(o.st)
+        if obls and not any(s_.sat() for s_ in (sts[:2] + sts[-2:])):
+            out['error'] = 'vacuous unit: no feasible path among the explored ones (contradictory requires?)'
         from . import lib
         out['assumptions'] = sorted(lib.USED)
     except Unsupported as e:
